@@ -234,33 +234,83 @@ Proof.
   destruct pre as [|c r]; [reflexivity|]. reflexivity.
 Qed.
 
+Lemma Forall_ok : forall (ok : ms -> bool) (P : ms -> Prop) xs,
+  Forall (fun x => ok x = true -> P x) xs -> forallb ok xs = true -> Forall P xs.
+Proof.
+  intros ok P xs H. induction H as [|x r Hx HF IH]; intros Hb; [constructor|].
+  cbn [forallb] in Hb. apply andb_prop in Hb. destruct Hb as [H1 H2]. constructor; auto.
+Qed.
+
+Lemma validate_le : forall max k n, validate_k_n max k n = true -> k <= N.of_nat n.
+Proof.
+  intros max k n H. unfold validate_k_n in H. apply negb_true_iff in H.
+  apply orb_false_iff in H. destruct H as [H _]. apply orb_false_iff in H. destruct H as [_ H].
+  apply N.ltb_ge in H. exact H.
+Qed.
+
+Lemma validate_pos : forall max k n, validate_k_n max k n = true -> k <> 0.
+Proof.
+  intros max k n H. unfold validate_k_n in H. apply negb_true_iff in H.
+  apply orb_false_iff in H. destruct H as [H _]. apply orb_false_iff in H. destruct H as [H _].
+  apply N.eqb_neq in H. exact H.
+Qed.
+
+Lemma validate_max : forall max k n, max <> 0 -> validate_k_n max k n = true -> N.of_nat n <= max.
+Proof.
+  intros max k n Hm H. unfold validate_k_n in H. apply negb_true_iff in H.
+  apply orb_false_iff in H. destruct H as [_ H].
+  destruct (max =? 0) eqn:E; [apply N.eqb_eq in E; contradiction|]. cbn in H.
+  apply N.ltb_ge in H. exact H.
+Qed.
+
+Ltac tok := match goal with H : ms_text_ok _ = true |- _ =>
+  cbn [MsTextModel.ms_text_ok] in H end;
+  repeat match goal with H : (_ && _) = true |- _ => apply andb_prop in H; destruct H end;
+  try match goal with H : chk _ = true |- _ => rename H into Hchk end;
+  try match goal with H : lock_ok _ = true |- _ => rename H into Hlock end;
+  try match goal with H : validate_k_n _ _ _ = true |- _ => rename H into Hval end;
+  try match goal with H : (_ <=? U32_MAX) = true |- _ => rename H into Hkle end;
+  try match goal with H : forallb _ _ = true |- _ => rename H into Hall end.
+
+Lemma check_ok : forall x, ms_text_ok (MCheck x) = true ->
+  (forall k, x <> MPkK k) -> (forall k, x <> MPkH k) -> chk (MCheck x) = true /\ ms_text_ok x = true.
+Proof.
+  intros x H H1 H2.
+  destruct x; try (exfalso; eapply H1; reflexivity); try (exfalso; eapply H2; reflexivity);
+    cbn [MsTextModel.ms_text_ok] in H; apply andb_prop in H; destruct H as [Ha Hb];
+    (split; [exact Ha | cbn [MsTextModel.ms_text_ok]; exact Hb]).
+Qed.
+
+Section Generic.
+Variable pw : ms -> tbytes * (tbytes * list etree).
+
 Definition Pbody (m : ms) : Prop :=
   forall pre parent st, nocolon pre = true -> noskip parent ->
-    run st (rpo parent (mk_node (pre ++ fst (tw m), snd (tw m)))) =
+    run st (rpo parent (mk_node (pre ++ fst (pw m), snd (pw m)))) =
     obind (apply_wrappers (rev pre) m) (fun m' => Ok (m' :: st)).
 
 Lemma Pbody_plain : forall m parent st, Pbody m -> noskip parent ->
-  run st (rpo parent (to_tree m)) = Ok (m :: st).
+  run st (rpo parent (mk_node (pw m))) = Ok (m :: st).
 Proof.
   intros m parent st H Hs. specialize (H [] parent st eq_refl Hs).
-  cbn [app rev MsTextModel.apply_wrappers obind] in H. unfold MsTextModel.to_tree.
-  destruct (tw m) as [w b]. exact H.
+  cbn [app rev MsTextModel.apply_wrappers obind] in H.
+  destruct (pw m) as [w b]. exact H.
 Qed.
 
 Lemma P_wrap : forall c x m',
-  tw m' = wrap c (tw x) -> wrap_term c x = Ok m' -> (c =? COLON) = false -> chk m' = true ->
+  pw m' = wrap c (pw x) -> wrap_term c x = Ok m' -> (c =? COLON) = false -> chk m' = true ->
   Pbody x -> Pbody m'.
 Proof.
   intros c x m' Ht Hw Hc Hk IH pre parent st Hp Hs.
   rewrite Ht. unfold wrap. cbn [fst snd].
-  replace (pre ++ c :: fst (tw x)) with ((pre ++ [c]) ++ fst (tw x)) by (rewrite <- app_assoc; reflexivity).
+  replace (pre ++ c :: fst (pw x)) with ((pre ++ [c]) ++ fst (pw x)) by (rewrite <- app_assoc; reflexivity).
   rewrite IH; [| rewrite nocolon_app, Hp; cbn; rewrite Hc; reflexivity | assumption].
   rewrite rev_app_distr. cbn [rev app MsTextModel.apply_wrappers].
   rewrite Hw. cbn [obind]. unfold MsTextModel.from_ast. rewrite Hk. cbn [obind]. reflexivity.
 Qed.
 
 Lemma P_node : forall m name kids f,
-  tw m = ([], (name, kids)) -> nocolon name = true -> frag_of_name name = Some f ->
+  pw m = ([], (name, kids)) -> nocolon name = true -> frag_of_name name = Some f ->
   (forall pre st, nocolon pre = true ->
      exists st', run st (rpo_list (full_name pre name) (length kids) kids true) = Ok st' /\
                  parse_frag f kids st' = Ok (m, st)) ->
@@ -329,7 +379,7 @@ Proof.
 Qed.
 
 Lemma P_multi : forall m name f max (mk : N -> list key -> ms) k ks,
-  tw m = ([], (name, leaf (dec k) :: map (fun k => leaf (print_key k)) ks)) ->
+  pw m = ([], (name, leaf (dec k) :: map (fun k => leaf (print_key k)) ks)) ->
   nocolon name = true -> frag_of_name name = Some f -> is_multi_name name = true ->
   (forall kids st, parse_frag f kids st = multi_frag parse_key chk max mk kids st) ->
   m = mk k ks -> chk m = true -> validate_k_n max k (length ks) = true -> k <= U32_MAX ->
@@ -346,50 +396,10 @@ Proof.
     rewrite map_o_keys. cbn [obind]. unfold MsTextModel.from_ast. rewrite <- Em, Hc. reflexivity.
 Qed.
 
-Lemma validate_le : forall max k n, validate_k_n max k n = true -> k <= N.of_nat n.
-Proof.
-  intros max k n H. unfold validate_k_n in H. apply negb_true_iff in H.
-  apply orb_false_iff in H. destruct H as [H _]. apply orb_false_iff in H. destruct H as [_ H].
-  apply N.ltb_ge in H. exact H.
-Qed.
-
-Lemma validate_pos : forall max k n, validate_k_n max k n = true -> k <> 0.
-Proof.
-  intros max k n H. unfold validate_k_n in H. apply negb_true_iff in H.
-  apply orb_false_iff in H. destruct H as [H _]. apply orb_false_iff in H. destruct H as [H _].
-  apply N.eqb_neq in H. exact H.
-Qed.
-
-Lemma validate_max : forall max k n, max <> 0 -> validate_k_n max k n = true -> N.of_nat n <= max.
-Proof.
-  intros max k n Hm H. unfold validate_k_n in H. apply negb_true_iff in H.
-  apply orb_false_iff in H. destruct H as [_ H].
-  destruct (max =? 0) eqn:E; [apply N.eqb_eq in E; contradiction|]. cbn in H.
-  apply N.ltb_ge in H. exact H.
-Qed.
-
-Ltac tok := match goal with H : ms_text_ok _ = true |- _ =>
-  cbn [MsTextModel.ms_text_ok] in H end;
-  repeat match goal with H : (_ && _) = true |- _ => apply andb_prop in H; destruct H end;
-  try match goal with H : chk _ = true |- _ => rename H into Hchk end;
-  try match goal with H : lock_ok _ = true |- _ => rename H into Hlock end;
-  try match goal with H : validate_k_n _ _ _ = true |- _ => rename H into Hval end;
-  try match goal with H : (_ <=? U32_MAX) = true |- _ => rename H into Hkle end;
-  try match goal with H : forallb _ _ = true |- _ => rename H into Hall end.
-
-Lemma check_ok : forall x, ms_text_ok (MCheck x) = true ->
-  (forall k, x <> MPkK k) -> (forall k, x <> MPkH k) -> chk (MCheck x) = true /\ ms_text_ok x = true.
-Proof.
-  intros x H H1 H2.
-  destruct x; try (exfalso; eapply H1; reflexivity); try (exfalso; eapply H2; reflexivity);
-    cbn [MsTextModel.ms_text_ok] in H; apply andb_prop in H; destruct H as [Ha Hb];
-    (split; [exact Ha | cbn [MsTextModel.ms_text_ok]; exact Hb]).
-Qed.
-
 Lemma child_run2 : forall pre name x y st,
   nocolon pre = true -> nocolon name = true -> is_multi_name name = false -> tb_eqb name n_thresh = false ->
   Pbody x -> Pbody y ->
-  run st (rpo_list (full_name pre name) 2 [to_tree x; to_tree y] true) = Ok (x :: y :: st).
+  run st (rpo_list (full_name pre name) 2 [mk_node (pw x); mk_node (pw y)] true) = Ok (x :: y :: st).
 Proof.
   intros pre name x y st Hp Hn Hm Ht Px Py. cbn [rpo_list app]. rewrite run_app.
   rewrite (Pbody_plain y _ st Py) by (apply noskip_child; auto; rewrite Ht; reflexivity).
@@ -399,7 +409,7 @@ Qed.
 Lemma child_run3 : forall pre name a b c st,
   nocolon pre = true -> nocolon name = true -> is_multi_name name = false -> tb_eqb name n_thresh = false ->
   Pbody a -> Pbody b -> Pbody c ->
-  run st (rpo_list (full_name pre name) 3 [to_tree a; to_tree b; to_tree c] true) = Ok (a :: b :: c :: st).
+  run st (rpo_list (full_name pre name) 3 [mk_node (pw a); mk_node (pw b); mk_node (pw c)] true) = Ok (a :: b :: c :: st).
 Proof.
   intros pre name a b c st Hp Hn Hm Ht Pa Pb Pc. cbn [rpo_list app]. rewrite !run_app.
   rewrite (Pbody_plain c _ st Pc) by (apply noskip_child; auto; rewrite Ht; reflexivity).
@@ -409,7 +419,7 @@ Proof.
 Qed.
 
 Lemma P_binary : forall m name f (mk : ms -> ms -> ms) x y,
-  tw m = ([], (name, [to_tree x; to_tree y])) ->
+  pw m = ([], (name, [mk_node (pw x); mk_node (pw y)])) ->
   nocolon name = true -> frag_of_name name = Some f -> is_multi_name name = false -> tb_eqb name n_thresh = false ->
   (forall kids st, parse_frag f kids st = binary_frag chk mk kids st) ->
   m = mk x y -> chk m = true -> Pbody x -> Pbody y -> Pbody m.
@@ -423,107 +433,108 @@ Qed.
 
 Lemma child_run_list : forall pre name n xs st,
   nocolon pre = true -> nocolon name = true -> is_multi_name name = false -> n <> 1%nat ->
-  Forall (fun x => ms_text_ok x = true -> Pbody x) xs -> forallb ms_text_ok xs = true ->
-  run st (rpo_list (full_name pre name) n (map to_tree xs) false) = Ok (xs ++ st).
+  Forall Pbody xs ->
+  run st (rpo_list (full_name pre name) n (map (fun x => mk_node (pw x)) xs) false) = Ok (xs ++ st).
 Proof.
-  intros pre name n xs st Hp Hn Hm Hn1 HF Hok. revert st. induction HF as [|x r Hx HF IH]; intros st; [reflexivity|].
-  cbn [forallb] in Hok. apply andb_prop in Hok. destruct Hok as [Hox Hor].
-  cbn [map rpo_list]. rewrite run_app, (IH Hor). cbn [obind app].
-  apply Pbody_plain; [apply Hx, Hox|]. apply noskip_child; auto. apply andb_false_r.
+  intros pre name n xs st Hp Hn Hm Hn1 HF. revert st. induction HF as [|x r Hx HF IH]; intros st; [reflexivity|].
+  cbn [map rpo_list]. rewrite run_app, IH. cbn [obind app].
+  apply Pbody_plain; [exact Hx|]. apply noskip_child; auto. apply andb_false_r.
 Qed.
 
-Theorem tw_parse : forall m, ms_text_ok m = true -> Pbody m.
+End Generic.
+
+Theorem tw_parse : forall m, ms_text_ok m = true -> Pbody tw m.
 Proof.
   induction m using mst_ind; intros Hok.
-  - (* 1 *) eapply (P_node _ n_1 [] FTrue); try reflexivity. intros pre st Hp. exists st. split; reflexivity.
-  - eapply (P_node _ n_0 [] FFalse); try reflexivity. intros pre st Hp. exists st. split; reflexivity.
-  - (* pk_k *) eapply (P_node _ n_pk_k _ FPkK); try reflexivity. intros pre st Hp. exists st. split; [apply kids_one_leaf|].
+  - (* 1 *) eapply (P_node tw _ n_1 [] FTrue); try reflexivity. intros pre st Hp. exists st. split; reflexivity.
+  - eapply (P_node tw _ n_0 [] FFalse); try reflexivity. intros pre st Hp. exists st. split; reflexivity.
+  - (* pk_k *) eapply (P_node tw _ n_pk_k _ FPkK); try reflexivity. intros pre st Hp. exists st. split; [apply kids_one_leaf|].
     cbn. unfold key_frag, verify_terminal_parent, verify_terminal. cbn. rewrite key_rt. reflexivity.
-  - eapply (P_node _ n_pk_h _ FPkH); try reflexivity. intros pre st Hp. exists st. split; [apply kids_one_leaf|].
+  - eapply (P_node tw _ n_pk_h _ FPkH); try reflexivity. intros pre st Hp. exists st. split; [apply kids_one_leaf|].
     cbn. unfold key_frag, verify_terminal_parent, verify_terminal. cbn. rewrite key_rt. reflexivity.
-  - eapply (P_node _ n_expr_raw_pkh _ FRawPkh); try reflexivity. intros pre st Hp. exists st. split; [apply kids_one_leaf|].
+  - eapply (P_node tw _ n_expr_raw_pkh _ FRawPkh); try reflexivity. intros pre st Hp. exists st. split; [apply kids_one_leaf|].
     cbn. unfold hash_frag, verify_terminal_parent, verify_terminal. cbn. rewrite hash_rt. reflexivity.
-  - (* after *) tok. eapply (P_node _ n_after _ FAfter); try reflexivity. intros pre st Hp. exists st. split; [apply kids_one_leaf|].
+  - (* after *) tok. eapply (P_node tw _ n_after _ FAfter); try reflexivity. intros pre st Hp. exists st. split; [apply kids_one_leaf|].
     cbn [MsTextModel.parse_frag]. unfold verify_lock. cbn [leaf n_kids t_name length].
     assert (t <= U32_MAX) by (pose proof Hlock as H; unfold lock_ok in H; apply andb_prop in H; destruct H as [_ H]; apply N.leb_le in H; unfold U32_MAX; lia).
     rewrite parse_num_dec by assumption. rewrite Hlock. reflexivity.
-  - tok. eapply (P_node _ n_older _ FOlder); try reflexivity. intros pre st Hp. exists st. split; [apply kids_one_leaf|].
+  - tok. eapply (P_node tw _ n_older _ FOlder); try reflexivity. intros pre st Hp. exists st. split; [apply kids_one_leaf|].
     cbn [MsTextModel.parse_frag]. unfold verify_lock. cbn [leaf n_kids t_name length].
     assert (t <= U32_MAX) by (pose proof Hlock as H; unfold lock_ok in H; apply andb_prop in H; destruct H as [_ H]; apply N.leb_le in H; unfold U32_MAX; lia).
     rewrite parse_num_dec by assumption. rewrite Hlock. reflexivity.
-  - eapply (P_node _ n_sha256 _ (FHash HSha256)); try reflexivity. intros pre st Hp. exists st. split; [apply kids_one_leaf|].
+  - eapply (P_node tw _ n_sha256 _ (FHash HSha256)); try reflexivity. intros pre st Hp. exists st. split; [apply kids_one_leaf|].
     cbn. unfold hash_frag, verify_terminal_parent, verify_terminal. cbn. rewrite hash_rt. reflexivity.
-  - eapply (P_node _ n_hash256 _ (FHash HHash256)); try reflexivity. intros pre st Hp. exists st. split; [apply kids_one_leaf|].
+  - eapply (P_node tw _ n_hash256 _ (FHash HHash256)); try reflexivity. intros pre st Hp. exists st. split; [apply kids_one_leaf|].
     cbn. unfold hash_frag, verify_terminal_parent, verify_terminal. cbn. rewrite hash_rt. reflexivity.
-  - eapply (P_node _ n_ripemd160 _ (FHash HRipemd160)); try reflexivity. intros pre st Hp. exists st. split; [apply kids_one_leaf|].
+  - eapply (P_node tw _ n_ripemd160 _ (FHash HRipemd160)); try reflexivity. intros pre st Hp. exists st. split; [apply kids_one_leaf|].
     cbn. unfold hash_frag, verify_terminal_parent, verify_terminal. cbn. rewrite hash_rt. reflexivity.
-  - eapply (P_node _ n_hash160 _ (FHash HHash160)); try reflexivity. intros pre st Hp. exists st. split; [apply kids_one_leaf|].
+  - eapply (P_node tw _ n_hash160 _ (FHash HHash160)); try reflexivity. intros pre st Hp. exists st. split; [apply kids_one_leaf|].
     cbn. unfold hash_frag, verify_terminal_parent, verify_terminal. cbn. rewrite hash_rt. reflexivity.
-  - (* a *) tok. eapply (P_wrap ch_a m); try reflexivity; auto.
-  - tok. eapply (P_wrap ch_s m); try reflexivity; auto.
+  - (* a *) tok. eapply (P_wrap tw ch_a m); try reflexivity; auto.
+  - tok. eapply (P_wrap tw ch_s m); try reflexivity; auto.
   - (* c *) destruct m;
       try (apply check_ok in Hok; [| intros ?; discriminate | intros ?; discriminate];
            destruct Hok as [Hc Hx];
-           eapply (P_wrap ch_c); [reflexivity | reflexivity | reflexivity | exact Hc | apply IHm; exact Hx]).
-    + eapply (P_node _ n_pk _ FPk); try reflexivity. intros pre st Hp. exists st. split; [apply kids_one_leaf|].
+           eapply (P_wrap tw ch_c); [reflexivity | reflexivity | reflexivity | exact Hc | apply IHm; exact Hx]).
+    + eapply (P_node tw _ n_pk _ FPk); try reflexivity. intros pre st Hp. exists st. split; [apply kids_one_leaf|].
       cbn. unfold key_frag, verify_terminal_parent, verify_terminal. cbn. rewrite key_rt. reflexivity.
-    + eapply (P_node _ n_pkh _ FPkh); try reflexivity. intros pre st Hp. exists st. split; [apply kids_one_leaf|].
+    + eapply (P_node tw _ n_pkh _ FPkh); try reflexivity. intros pre st Hp. exists st. split; [apply kids_one_leaf|].
       cbn. unfold key_frag, verify_terminal_parent, verify_terminal. cbn. rewrite key_rt. reflexivity.
-  - tok. eapply (P_wrap ch_d m); try reflexivity; auto.
-  - tok. eapply (P_wrap ch_v m); try reflexivity; auto.
-  - tok. eapply (P_wrap ch_j m); try reflexivity; auto.
-  - tok. eapply (P_wrap ch_n m); try reflexivity; auto.
+  - tok. eapply (P_wrap tw ch_d m); try reflexivity; auto.
+  - tok. eapply (P_wrap tw ch_v m); try reflexivity; auto.
+  - tok. eapply (P_wrap tw ch_j m); try reflexivity; auto.
+  - tok. eapply (P_wrap tw ch_n m); try reflexivity; auto.
   - (* and_v *) tok. destruct (is_true m2) eqn:Et.
-    + destruct m2; try discriminate. eapply (P_wrap ch_t m1); try reflexivity; auto.
-    + eapply (P_binary _ n_and_v FAndV MAndV m1 m2); try reflexivity; auto.
+    + destruct m2; try discriminate. eapply (P_wrap tw ch_t m1); try reflexivity; auto.
+    + eapply (P_binary tw _ n_and_v FAndV MAndV m1 m2); try reflexivity; auto.
       cbn [MsTextModel.tw]. rewrite Et. reflexivity.
-  - tok. eapply (P_binary _ n_and_b FAndB MAndB m1 m2); try reflexivity; auto.
+  - tok. eapply (P_binary tw _ n_and_b FAndB MAndB m1 m2); try reflexivity; auto.
   - (* andor *) tok. destruct (is_false m3) eqn:Ef.
     + destruct m3; try discriminate.
-      eapply (P_binary _ n_and_n FAndN (fun x y => MAndOr x y MFalse) m1 m2); try reflexivity; auto.
-    + eapply (P_node _ n_andor [to_tree m1; to_tree m2; to_tree m3] FAndOr); try reflexivity.
+      eapply (P_binary tw _ n_and_n FAndN (fun x y => MAndOr x y MFalse) m1 m2); try reflexivity; auto.
+    + eapply (P_node tw _ n_andor [to_tree m1; to_tree m2; to_tree m3] FAndOr); try reflexivity.
       * cbn [MsTextModel.tw]. rewrite Ef. reflexivity.
       * intros pre st Hp. exists (m1 :: m2 :: m3 :: st). split.
-        -- apply child_run3; auto.
+        -- apply (child_run3 tw); auto.
         -- cbn [MsTextModel.parse_frag pop obind]. unfold MsTextModel.from_ast. rewrite Hchk. reflexivity.
-  - tok. eapply (P_binary _ n_or_b FOrB MOrB m1 m2); try reflexivity; auto.
-  - tok. eapply (P_binary _ n_or_d FOrD MOrD m1 m2); try reflexivity; auto.
-  - tok. eapply (P_binary _ n_or_c FOrC MOrC m1 m2); try reflexivity; auto.
+  - tok. eapply (P_binary tw _ n_or_b FOrB MOrB m1 m2); try reflexivity; auto.
+  - tok. eapply (P_binary tw _ n_or_d FOrD MOrD m1 m2); try reflexivity; auto.
+  - tok. eapply (P_binary tw _ n_or_c FOrC MOrC m1 m2); try reflexivity; auto.
   - (* or_i *) tok. destruct (is_false m2) eqn:E2.
     + destruct m2; try discriminate. destruct (is_false m1) eqn:E1.
-      * destruct m1; try discriminate. eapply (P_wrap ch_u MFalse); try reflexivity; auto.
-      * eapply (P_wrap ch_u m1); try reflexivity; auto. cbn [MsTextModel.tw is_false]. rewrite E1. reflexivity.
+      * destruct m1; try discriminate. eapply (P_wrap tw ch_u MFalse); try reflexivity; auto.
+      * eapply (P_wrap tw ch_u m1); try reflexivity; auto. cbn [MsTextModel.tw is_false]. rewrite E1. reflexivity.
     + destruct (is_false m1) eqn:E1.
-      * destruct m1; try discriminate. eapply (P_wrap ch_l m2); try reflexivity; auto.
+      * destruct m1; try discriminate. eapply (P_wrap tw ch_l m2); try reflexivity; auto.
         cbn [MsTextModel.tw]. rewrite E2. reflexivity.
-      * eapply (P_binary _ n_or_i FOrI MOrI m1 m2); try reflexivity; auto.
+      * eapply (P_binary tw _ n_or_i FOrI MOrI m1 m2); try reflexivity; auto.
         cbn [MsTextModel.tw]. rewrite E2, E1. reflexivity.
   - (* thresh *) tok.
-    eapply (P_node _ n_thresh (leaf (dec k) :: map to_tree xs) FThresh); try reflexivity.
+    eapply (P_node tw _ n_thresh (leaf (dec k) :: map (fun x => mk_node (tw x)) xs) FThresh); try reflexivity.
     intros pre st Hp. exists (xs ++ st). split.
     + cbn [rpo_list]. rewrite run_app.
-      assert (Hn1 : length (leaf (dec k) :: map to_tree xs) <> 1%nat).
+      assert (Hn1 : length (leaf (dec k) :: map (fun x => mk_node (tw x)) xs) <> 1%nat).
       { cbn [length]. rewrite map_length. pose proof (validate_le _ _ _ Hval) as Hle.
         pose proof (validate_pos _ _ _ Hval) as Hnz. destruct xs; [cbn in Hle; lia | cbn [length]; lia]. }
-      rewrite (child_run_list pre n_thresh _ xs st Hp eq_refl eq_refl Hn1 H Hall). cbn [obind].
+      rewrite (child_run_list tw pre n_thresh _ xs st Hp eq_refl eq_refl Hn1 (Forall_ok _ _ _ H Hall)). cbn [obind].
       apply run_leaf_skipped. apply skip_thresh_k. exact Hp.
     + cbn [MsTextModel.parse_frag]. unfold verify_threshold. cbn [leaf n_kids t_name length].
       apply N.leb_le in Hkle. rewrite (parse_num_dec k Hkle). rewrite map_length, Hval. cbn [obind].
       rewrite ?map_length. rewrite pop_n_app. cbn [obind]. unfold MsTextModel.from_ast. rewrite Hchk. reflexivity.
   - (* multi *) tok.
-    eapply (P_multi _ n_multi FMulti MAX_PUBKEYS_PER_MULTISIG MMulti k ks); try reflexivity; auto.
+    eapply (P_multi tw _ n_multi FMulti MAX_PUBKEYS_PER_MULTISIG MMulti k ks); try reflexivity; auto.
     apply validate_le in Hval as H1. apply validate_max in Hval as H2; [|discriminate].
     unfold MAX_PUBKEYS_PER_MULTISIG, U32_MAX in *. lia.
   - tok.
-    eapply (P_multi _ n_sortedmulti FSortedMulti MAX_PUBKEYS_PER_MULTISIG MSortedMulti k ks); try reflexivity; auto.
+    eapply (P_multi tw _ n_sortedmulti FSortedMulti MAX_PUBKEYS_PER_MULTISIG MSortedMulti k ks); try reflexivity; auto.
     apply validate_le in Hval as H1. apply validate_max in Hval as H2; [|discriminate].
     unfold MAX_PUBKEYS_PER_MULTISIG, U32_MAX in *. lia.
   - tok.
-    eapply (P_multi _ n_multi_a FMultiA MAX_PUBKEYS_IN_CHECKSIGADD MMultiA k ks); try reflexivity; auto.
+    eapply (P_multi tw _ n_multi_a FMultiA MAX_PUBKEYS_IN_CHECKSIGADD MMultiA k ks); try reflexivity; auto.
     apply validate_le in Hval as H1. apply validate_max in Hval as H2; [|discriminate].
     unfold MAX_PUBKEYS_IN_CHECKSIGADD, U32_MAX in *. lia.
   - tok.
-    eapply (P_multi _ n_sortedmulti_a FSortedMultiA MAX_PUBKEYS_IN_CHECKSIGADD MSortedMultiA k ks); try reflexivity; auto.
+    eapply (P_multi tw _ n_sortedmulti_a FSortedMultiA MAX_PUBKEYS_IN_CHECKSIGADD MSortedMultiA k ks); try reflexivity; auto.
     apply validate_le in Hval as H1. apply validate_max in Hval as H2; [|discriminate].
     unfold MAX_PUBKEYS_IN_CHECKSIGADD, U32_MAX in *. lia.
 Qed.
@@ -555,8 +566,8 @@ Qed.
 Theorem print_parse : forall m, ms_text_ok m = true -> from_tree (to_tree m) = Ok m.
 Proof.
   intros m Hok. unfold MsTextModel.from_tree.
-  unfold MsTextModel.to_tree at 1. rewrite hc_mk, hc_tw.
-  rewrite (Pbody_plain m None [] (tw_parse m Hok) I). reflexivity.
+  unfold MsTextModel.to_tree. rewrite hc_mk, hc_tw.
+  rewrite (Pbody_plain tw m None [] (tw_parse m Hok) I). reflexivity.
 Qed.
 
 (* ------------------------------------------------------------------ what the parser returns is valid *)
@@ -732,6 +743,147 @@ Theorem print_fixpoint : forall t m, from_tree t = Ok m ->
 Proof.
   intros t m H. pose proof (print_parse m (parse_valid t m H)) as Hp. split; [exact Hp|].
   intros m' H'. rewrite Hp in H'. inversion H'. reflexivity.
+Qed.
+
+(* ------------------------------------------------------------------ every spelling means the same AST *)
+Notation ms_all_ok := (ms_all_ok chk).
+Notation tws := (tws print_key print_hash).
+
+Ltac tok2 := match goal with H : ms_all_ok _ = true |- _ =>
+  cbn [MsTextModel.ms_all_ok] in H end;
+  repeat match goal with H : (_ && _) = true |- _ => apply andb_prop in H; destruct H end;
+  try match goal with H : chk _ = true |- _ => rename H into Hchk end;
+  try match goal with H : lock_ok _ = true |- _ => rename H into Hlock end;
+  try match goal with H : validate_k_n _ _ _ = true |- _ => rename H into Hval end;
+  try match goal with H : (_ <=? U32_MAX) = true |- _ => rename H into Hkle end;
+  try match goal with H : forallb _ _ = true |- _ => rename H into Hall end.
+
+Ltac leaf_key := intros pre st Hp; exists st; split; [apply kids_one_leaf|];
+  cbn; unfold key_frag, verify_terminal_parent, verify_terminal; cbn; rewrite key_rt; reflexivity.
+Ltac leaf_hash := intros pre st Hp; exists st; split; [apply kids_one_leaf|];
+  cbn; unfold hash_frag, verify_terminal_parent, verify_terminal; cbn; rewrite hash_rt; reflexivity.
+
+Theorem tws_parse : forall sp m, ms_all_ok m = true -> Pbody (tws sp) m.
+Proof.
+  intros sp. induction m using mst_ind; intros Hok.
+  - eapply (P_node (tws sp) _ n_1 [] FTrue); try reflexivity. intros pre st Hp. exists st. split; reflexivity.
+  - eapply (P_node (tws sp) _ n_0 [] FFalse); try reflexivity. intros pre st Hp. exists st. split; reflexivity.
+  - eapply (P_node (tws sp) _ n_pk_k _ FPkK); try reflexivity. leaf_key.
+  - eapply (P_node (tws sp) _ n_pk_h _ FPkH); try reflexivity. leaf_key.
+  - eapply (P_node (tws sp) _ n_expr_raw_pkh _ FRawPkh); try reflexivity. leaf_hash.
+  - tok2. eapply (P_node (tws sp) _ n_after _ FAfter); try reflexivity. intros pre st Hp. exists st. split; [apply kids_one_leaf|].
+    cbn [MsTextModel.parse_frag]. unfold verify_lock. cbn [leaf n_kids t_name length].
+    assert (t <= U32_MAX) by (pose proof Hlock as H; unfold lock_ok in H; apply andb_prop in H; destruct H as [_ H]; apply N.leb_le in H; unfold U32_MAX; lia).
+    rewrite parse_num_dec by assumption. rewrite Hlock. reflexivity.
+  - tok2. eapply (P_node (tws sp) _ n_older _ FOlder); try reflexivity. intros pre st Hp. exists st. split; [apply kids_one_leaf|].
+    cbn [MsTextModel.parse_frag]. unfold verify_lock. cbn [leaf n_kids t_name length].
+    assert (t <= U32_MAX) by (pose proof Hlock as H; unfold lock_ok in H; apply andb_prop in H; destruct H as [_ H]; apply N.leb_le in H; unfold U32_MAX; lia).
+    rewrite parse_num_dec by assumption. rewrite Hlock. reflexivity.
+  - eapply (P_node (tws sp) _ n_sha256 _ (FHash HSha256)); try reflexivity. leaf_hash.
+  - eapply (P_node (tws sp) _ n_hash256 _ (FHash HHash256)); try reflexivity. leaf_hash.
+  - eapply (P_node (tws sp) _ n_ripemd160 _ (FHash HRipemd160)); try reflexivity. leaf_hash.
+  - eapply (P_node (tws sp) _ n_hash160 _ (FHash HHash160)); try reflexivity. leaf_hash.
+  - tok2. eapply (P_wrap (tws sp) ch_a m); try reflexivity; auto.
+  - tok2. eapply (P_wrap (tws sp) ch_s m); try reflexivity; auto.
+  - (* c *) tok2. match goal with H : ms_all_ok m = true |- _ => specialize (IHm H) end.
+    destruct m; try (eapply (P_wrap (tws sp) ch_c); [reflexivity | reflexivity | reflexivity | assumption | assumption]).
+    + destruct (sp (MCheck (MPkK k))) eqn:Es.
+      * eapply (P_node (tws sp) _ n_pk _ FPk); try reflexivity; [cbn [MsTextModel.tws]; rewrite Es; reflexivity|]. leaf_key.
+      * eapply (P_wrap (tws sp) ch_c (MPkK k)); try reflexivity; auto. cbn [MsTextModel.tws]. rewrite Es. reflexivity.
+    + destruct (sp (MCheck (MPkH k))) eqn:Es.
+      * eapply (P_node (tws sp) _ n_pkh _ FPkh); try reflexivity; [cbn [MsTextModel.tws]; rewrite Es; reflexivity|]. leaf_key.
+      * eapply (P_wrap (tws sp) ch_c (MPkH k)); try reflexivity; auto. cbn [MsTextModel.tws]. rewrite Es. reflexivity.
+  - tok2. eapply (P_wrap (tws sp) ch_d m); try reflexivity; auto.
+  - tok2. eapply (P_wrap (tws sp) ch_v m); try reflexivity; auto.
+  - tok2. eapply (P_wrap (tws sp) ch_j m); try reflexivity; auto.
+  - tok2. eapply (P_wrap (tws sp) ch_n m); try reflexivity; auto.
+  - (* and_v *) tok2. destruct (is_true m2 && sp (MAndV m1 m2)) eqn:Et.
+    + apply andb_prop in Et. destruct Et as [E1 E2]. destruct m2; try discriminate.
+      eapply (P_wrap (tws sp) ch_t m1); try reflexivity; auto.
+      cbn [MsTextModel.tws is_true andb]. rewrite E2. reflexivity.
+    + eapply (P_binary (tws sp) _ n_and_v FAndV MAndV m1 m2); try reflexivity; auto.
+      cbn [MsTextModel.tws]. rewrite Et. reflexivity.
+  - tok2. eapply (P_binary (tws sp) _ n_and_b FAndB MAndB m1 m2); try reflexivity; auto.
+  - (* andor *) tok2. destruct (is_false m3 && sp (MAndOr m1 m2 m3)) eqn:Ef.
+    + apply andb_prop in Ef. destruct Ef as [E1 E2]. destruct m3; try discriminate.
+      eapply (P_binary (tws sp) _ n_and_n FAndN (fun x y => MAndOr x y MFalse) m1 m2); try reflexivity; auto.
+      cbn [MsTextModel.tws is_false andb]. rewrite E2. reflexivity.
+    + eapply (P_node (tws sp) _ n_andor [mk_node (tws sp m1); mk_node (tws sp m2); mk_node (tws sp m3)] FAndOr); try reflexivity.
+      * cbn [MsTextModel.tws]. rewrite Ef. reflexivity.
+      * intros pre st Hp. exists (m1 :: m2 :: m3 :: st). split.
+        -- apply (child_run3 (tws sp)); auto.
+        -- cbn [MsTextModel.parse_frag pop obind]. unfold MsTextModel.from_ast. rewrite Hchk. reflexivity.
+  - tok2. eapply (P_binary (tws sp) _ n_or_b FOrB MOrB m1 m2); try reflexivity; auto.
+  - tok2. eapply (P_binary (tws sp) _ n_or_d FOrD MOrD m1 m2); try reflexivity; auto.
+  - tok2. eapply (P_binary (tws sp) _ n_or_c FOrC MOrC m1 m2); try reflexivity; auto.
+  - (* or_i *) tok2. destruct (sp (MOrI m1 m2)) eqn:Es.
+    + destruct (is_false m2) eqn:E2.
+      * destruct m2; try discriminate. destruct (is_false m1) eqn:E1.
+        -- destruct m1; try discriminate. eapply (P_wrap (tws sp) ch_u MFalse); try reflexivity; auto.
+           cbn [MsTextModel.tws is_false]. rewrite Es. reflexivity.
+        -- eapply (P_wrap (tws sp) ch_u m1); try reflexivity; auto. cbn [MsTextModel.tws is_false]. rewrite Es, E1. reflexivity.
+      * destruct (is_false m1) eqn:E1.
+        -- destruct m1; try discriminate. eapply (P_wrap (tws sp) ch_l m2); try reflexivity; auto.
+           cbn [MsTextModel.tws is_false]. rewrite Es, E2. reflexivity.
+        -- eapply (P_binary (tws sp) _ n_or_i FOrI MOrI m1 m2); try reflexivity; auto.
+           cbn [MsTextModel.tws]. rewrite Es, E2, E1. reflexivity.
+    + eapply (P_binary (tws sp) _ n_or_i FOrI MOrI m1 m2); try reflexivity; auto.
+      cbn [MsTextModel.tws]. rewrite Es. reflexivity.
+  - (* thresh *) tok2.
+    eapply (P_node (tws sp) _ n_thresh (leaf (dec k) :: map (fun x => mk_node (tws sp x)) xs) FThresh); try reflexivity.
+    intros pre st Hp. exists (xs ++ st). split.
+    + cbn [rpo_list]. rewrite run_app.
+      assert (Hn1 : length (leaf (dec k) :: map (fun x => mk_node (tws sp x)) xs) <> 1%nat).
+      { cbn [length]. rewrite map_length. pose proof (validate_le _ _ _ Hval) as Hle.
+        pose proof (validate_pos _ _ _ Hval) as Hnz. destruct xs; [cbn in Hle; lia | cbn [length]; lia]. }
+      rewrite (child_run_list (tws sp) pre n_thresh _ xs st Hp eq_refl eq_refl Hn1 (Forall_ok _ _ _ H Hall)). cbn [obind].
+      apply run_leaf_skipped. apply skip_thresh_k. exact Hp.
+    + cbn [MsTextModel.parse_frag]. unfold verify_threshold. cbn [leaf n_kids t_name length].
+      apply N.leb_le in Hkle. rewrite (parse_num_dec k Hkle). rewrite map_length, Hval. cbn [obind].
+      rewrite ?map_length. rewrite pop_n_app. cbn [obind]. unfold MsTextModel.from_ast. rewrite Hchk. reflexivity.
+  - tok2.
+    eapply (P_multi (tws sp) _ n_multi FMulti MAX_PUBKEYS_PER_MULTISIG MMulti k ks); try reflexivity; auto.
+    apply validate_le in Hval as H1. apply validate_max in Hval as H2; [|discriminate].
+    unfold MAX_PUBKEYS_PER_MULTISIG, U32_MAX in *. lia.
+  - tok2.
+    eapply (P_multi (tws sp) _ n_sortedmulti FSortedMulti MAX_PUBKEYS_PER_MULTISIG MSortedMulti k ks); try reflexivity; auto.
+    apply validate_le in Hval as H1. apply validate_max in Hval as H2; [|discriminate].
+    unfold MAX_PUBKEYS_PER_MULTISIG, U32_MAX in *. lia.
+  - tok2.
+    eapply (P_multi (tws sp) _ n_multi_a FMultiA MAX_PUBKEYS_IN_CHECKSIGADD MMultiA k ks); try reflexivity; auto.
+    apply validate_le in Hval as H1. apply validate_max in Hval as H2; [|discriminate].
+    unfold MAX_PUBKEYS_IN_CHECKSIGADD, U32_MAX in *. lia.
+  - tok2.
+    eapply (P_multi (tws sp) _ n_sortedmulti_a FSortedMultiA MAX_PUBKEYS_IN_CHECKSIGADD MSortedMultiA k ks); try reflexivity; auto.
+    apply validate_le in Hval as H1. apply validate_max in Hval as H2; [|discriminate].
+    unfold MAX_PUBKEYS_IN_CHECKSIGADD, U32_MAX in *. lia.
+Qed.
+
+Ltac fin2 :=
+  cbn [MsTextModel.tws] in *;
+  repeat match goal with |- context [if ?b then _ else _] => destruct b end;
+  unfold wrap in *; cbn [fst snd existsb leaf MsTextModel.has_curly orb map] in *;
+  rewrite ?hc_mk, ?hc_keys;
+  repeat match goal with H : context [has_curly (mk_node _)] |- _ => rewrite hc_mk in H end;
+  try assumption;
+  repeat match goal with H : existsb _ _ = false |- _ => rewrite H end; try reflexivity.
+
+Lemma hc_tws : forall sp m, existsb has_curly (snd (snd (tws sp m))) = false.
+Proof.
+  intros sp. induction m using mst_ind; try (fin2; fail).
+  - destruct m; fin2.
+  - fin2. induction H as [|x r Hx HF IH]; [reflexivity|].
+    cbn [map existsb]. rewrite hc_mk, Hx. exact IH.
+Qed.
+
+(* sugar and aliases mean their expansions: whichever spelling is chosen at each node that has two,
+   the tree parses to the same AST *)
+Theorem alias_meaning : forall sp m, ms_all_ok m = true ->
+  from_tree (to_tree_sp print_key print_hash sp m) = Ok m.
+Proof.
+  intros sp m Hok. unfold MsTextModel.from_tree, to_tree_sp.
+  rewrite hc_mk, hc_tws.
+  rewrite (Pbody_plain (tws sp) m None [] (tws_parse sp m Hok) I). reflexivity.
 Qed.
 
 End TextProofs.
